@@ -34,18 +34,22 @@ structure Rest where
   ulen : Nat := 0
 deriving Inhabited
 
-def lineLib : Lib Rest (Option Nat × Nat) Unit where
+/-- the primitives of the line protocol: the "dictionary" is the list of
+piece lengths the library produced, in packing order; each call consumes the
+next one (so the same record packed twice may come out with two lengths, as
+it does when its owner name compresses the second time). -/
+def lineLib (pieces : List (Option Nat)) : Lib Rest (Option Nat × Nat) (List (Option Nat)) where
   adm := fun o => o.rest.adm
-  packRR := fun o L off _ => match o.rest.plen with
-    | none => .fail ()
-    | some n => if off + n ≤ L then .ok (List.replicate n 0) () 0 else .fail ()
-  packName := fun q L off _ => match q.1 with
-    | none => .fail ()
-    | some n => if off + n ≤ L then .ok (List.replicate n 0) () 0 else .fail ()
+  packRR := fun _ L off d => match d with
+    | some n :: t => if off + n ≤ L then .ok (List.replicate n 0) t 0 else .fail t
+    | _ => .fail []
+  packName := fun _ L off d => match d with
+    | some n :: t => if off + n ≤ L then .ok (List.replicate n 0) t 0 else .fail t
+    | _ => .fail []
   rrLen := fun o => o.rest.ulen
   qLen := fun q => q.name.2
-  nilDict := ()
-  emptyDict := ()
+  nilDict := pieces
+  emptyDict := pieces
   dictLen := fun _ => 0
 
 def kv (key : String) (w : String) : Option String :=
@@ -113,8 +117,10 @@ def decide (w : List String) : Option String :=
     let m : Msg (Option Nat × Nat) :=
       { hdr := { rcode := rcode }, compress := compress, question := qs,
         answer := anL.map (·.1), ns := nsL.map (·.1), extra := exL.map (·.1) }
-    let st : PState Rest Unit := { buf := List.replicate packBufferSize 0xAA }
-    let res := tryPack lineLib m heap st
+    let pieces : List (Option Nat) :=
+      qs.map (·.name.1) ++ (anL ++ nsL ++ exL).filterMap fun e => e.1.map fun _ => e.2.rest.plen
+    let st : PState Rest (List (Option Nat)) := { buf := List.replicate packBufferSize 0xAA }
+    let res := tryPack (lineLib pieces) m heap st
     match res.handled, res.consumed with
     | true, some s => some s!"handled=t len={s.data.length}"
     | false, none => some "handled=f"
